@@ -53,7 +53,20 @@ fn seq_enumeration<F: Fam>(spec: &CaseSpec, prop: &'static str) {
     let mut lbs = BTreeSet::new();
     let mut ubs = BTreeSet::new();
     let mut nontrivial_cuts = 0u64;
-    for k in 1..=kmax + 1 {
+    // every poll index when the run is short; for long runs (medium sized instances) a sample of ~90 indices: windows of
+    // consecutive indices + the last two (by transitivity a violation of the pairwise clauses between two sampled indices
+    // implies one between two consecutive indices)
+    let ks: Vec<u64> = if kmax <= 300 { (1..=kmax + 1).collect() } else {
+        let mut rng = crate::util::Rng::derive(spec.gen_seed, &[0xC5, kmax]);
+        let mut v: Vec<u64> = (0..30).flat_map(|_| { let s = 1 + rng.below(kmax - 2); vec![s, s + 1, s + 2] }).collect();
+        v.extend_from_slice(&[1, 2, kmax, kmax + 1]);
+        v.sort_unstable();
+        v.dedup();
+        v
+    };
+    if kmax > 300 { with_acc(|a| a.bump("instances_with_sampled_poll_indices", 1)); }
+    let mut prev_k = 0u64;
+    for k in ks {
         tick();
         let mut c = cfg.clone();
         c.cutoff_k = k;
@@ -76,8 +89,8 @@ fn seq_enumeration<F: Fam>(spec: &CaseSpec, prop: &'static str) {
             } else {
                 // C19
                 if let Some((plb, pub_)) = prev {
-                    if out.lb < plb { a.violation(prop, "lower_bound_decreased", format!("cutoff at poll {k}: best_lower_bound() = {} but it was {plb} when the cutoff fired at poll {}", out.lb, k - 1), J::obj().set("k", J::i(k)), case()); }
-                    if out.ub > pub_ { a.violation(prop, "upper_bound_increased", format!("cutoff at poll {k}: best_upper_bound() = {} but it was {pub_} when the cutoff fired at poll {}", out.ub, k - 1), J::obj().set("k", J::i(k)), case()); }
+                    if out.lb < plb { a.violation(prop, "lower_bound_decreased", format!("cutoff at poll {k}: best_lower_bound() = {} but it was {plb} when the cutoff fired at poll {}", out.lb, prev_k), J::obj().set("k", J::i(k)), case()); }
+                    if out.ub > pub_ { a.violation(prop, "upper_bound_increased", format!("cutoff at poll {k}: best_upper_bound() = {} but it was {pub_} when the cutoff fired at poll {}", out.ub, prev_k), J::obj().set("k", J::i(k)), case()); }
                 }
                 if k == kmax + 1 {
                     let (e, v) = out.completion.unwrap();
@@ -88,12 +101,13 @@ fn seq_enumeration<F: Fam>(spec: &CaseSpec, prop: &'static str) {
             }
         });
         prev = Some((out.lb, out.ub));
+        prev_k = k;
         if out.lb != isize::MIN { lbs.insert(out.lb); }
         if out.ub != isize::MAX { ubs.insert(out.ub); }
     }
     with_acc(|a| {
         a.bump("instances_enumerated", 1);
-        a.bump("poll_indices_enumerated", kmax + 1);
+        a.bump("poll_indices_enumerated", if kmax <= 300 { kmax + 1 } else { 90 });
         if prop == "C19" && ubs.len() >= 3 && lbs.len() >= 2 {
             a.nontrivial.insert(hash_of(&(inst.ihash(), format!("{:?}", cfg.json()))));
             if a.samples.len() < a.max_samples { a.sample(light_case(spec, inst.as_ref()).set("polls", J::i(kmax)).set("distinct_lower_bounds", J::ints(&lbs.iter().copied().collect::<Vec<_>>())).set("distinct_upper_bounds", J::ints(&ubs.iter().copied().collect::<Vec<_>>()))); }
@@ -150,7 +164,7 @@ pub fn run_c05(shard: &Shard) -> i32 {
     if let Some(path) = &shard.replay { return replay(path, PROP); }
     case_loop(shard, u64::MAX, |_i, rng| {
         if shard.idx % 2 == 0 {
-            let p = Profile { with_dominance: true, small: rng.chance(1, 6), depth_free_bias: rng.chance(1, 3), ..Default::default() };
+            let p = Profile { with_dominance: true, small: rng.chance(1, 6), depth_free_bias: rng.chance(1, 3), medium_share: if shard.quick() { 0 } else { 1 }, ..Default::default() };
             let spec = random_spec(rng, &p);
             with_family!(spec.family, seq_enumeration, &spec, PROP);
         } else {
@@ -172,7 +186,7 @@ pub fn run_c19(shard: &Shard) -> i32 {
     set_current(PROP, false);
     if let Some(path) = &shard.replay { return replay(path, PROP); }
     case_loop(shard, u64::MAX, |_i, rng| {
-        let p = Profile { with_dominance: true, small: rng.chance(1, 4), depth_free_bias: rng.chance(1, 3), ..Default::default() };
+        let p = Profile { with_dominance: true, small: rng.chance(1, 4), depth_free_bias: rng.chance(1, 3), medium_share: if shard.quick() { 0 } else { 1 }, ..Default::default() };
         let spec = random_spec(rng, &p);
         with_family!(spec.family, seq_enumeration, &spec, PROP);
         true
